@@ -86,9 +86,10 @@ def check_pipeline(r, k, desc, t, Lmax, tables=True, max_starts=64, emit=True):
         if not good:
             r.v(pre + 'retained-vertex-fails-filter', 'pipe', case, 'every retained k-mer passes the filter', w)
             break
+    liveset = set(live)
     for v in live:
         s = O.succ(v, k)
-        bad = [j for j in range(4) if G[v][j] != -1 and (G[v][j] != s[j] or G[v][j] not in live)]
+        bad = [j for j in range(4) if G[v][j] != -1 and (G[v][j] != s[j] or G[v][j] not in liveset)]
         if bad:
             r.v(pre + 'arc-not-shift-append-or-into-unretained-vertex', 'pipe', case, None, [v, bad])
             break
